@@ -34,6 +34,8 @@ ASSUMPTIONS = ["geometry (projection points, relative positions, dist_obs) is ta
 def gen_case(rng, i, tier):
     case = mcase.gen_mcase(rng, ne=(rng.random() < 0.7), width="maybe", tighten_p=0.2, sparse_p=0.35, max_obs=9)
     case["ops"] = gen.gen_history(rng, len(case["trace"]), case["cfg"]["width"], allow_cwd=False, max_ops=4)
+    if not case.get("large") and not case["map"].get("latlon"):
+        gen.add_pre_trace(rng, case)
     return case
 
 
@@ -64,7 +66,10 @@ def check_case(ctx, case):
             big[0] = True
         for kind, text in oracles.rescore_path(mt, fam, model, counters):
             order = "second-order" if case["cfg"]["agb"] else "first-order"
-            ctx.violation(f"C02:{kind}:{fam}:{order}:after-{op['op']}", case, f"after operation #{i} {op}: {text}")
+            if "stale-child" in kind:
+                ctx.violation(f"C02:{kind}", case, f"after operation #{i} {op} [{fam}, {order}]: {text}")
+            else:
+                ctx.violation(f"C02:{kind}:{fam}:{order}:after-{op['op']}", case, f"after operation #{i} {op}: {text}")
     monitors.run_history(mt, tr, case["ops"], after=after)
     for k, v in counters.items():
         ctx.count(k, v)
